@@ -36,22 +36,23 @@ OPEN_STATEMENTS = [
     'equivalence of the Z-sectors of the fixed qubits): checked numerically (eigvalsh, 1e-9) on every generated case; '
     'proved: the qubit re-indexing is the order-preserving bijection with "remove" exactly at the removed positions '
     '(taper_reindex_spec) and the Pauli-table invariant of the fixed position (fixed_position_invariant)',
-    'reduce_terms_agrees_on_codespace is proved for the loop of _reduce_terms run without pruning (tol = 0: '
-    'reduce_terms_agrees_on_codespace_partial, any stabilizer list, manual or automatic positions); missing for the live '
-    'tolerance 1e-8: that no partial sum of `new_terms +=` is non-zero but below the tolerance along the run; the checks of '
+    'reduce_terms_agrees_on_codespace is proved at the live tolerance under the per-run exact-regime flag the Model '
+    'computes (every `new_terms +=` exact; the driver reports it, the stream counts exact-regime(reduce/taper):True/False); '
+    'runs whose flag is False (a partial sum non-zero but below 1e-8) are outside the theorem; the checks of '
     'reduce_number_of_terms, the existence of fixed positions and taper_off_qubits on top of it: Spec oracle',
     '_reduce_terms_keep_length / _lookup_term: correspondence + Spec oracle only',
-    'project_onto_sector_sound: proved term by term without tolerance (project_term_kept / project_term_dropped) and for '
-    'whole operators when the loop runs without pruning (project_onto_sector_sound_partial, tol = 0), relative to any '
-    'embedding E satisfying `Emb` (kept qubit q at bit shiftDown(q), removed qubits at their sector value); missing: that '
-    'Spec.C16.embed (the embedding the oracle uses) satisfies `Emb` for every qubit list, and the live tolerance 1e-8; '
-    'both covered by the exact embedded-matrix-element oracle',
+    'project_onto_sector_sound is proved at the live tolerance against the Spec embedding (project_onto_sector_sound_spec, '
+    'spec_embed_is_emb) for operators whose terms are Pauli strings on distinct qubits below n and distinct removed '
+    'qubits, under the per-run exact-regime flag (counted as exact-regime(project):True/False); duplicate entries in '
+    '`qubits` and runs whose flag is False are outside the theorem (oracle only)',
     'rotate_qubit_by_pauli_sound is proved for exact (c, s) with c^2 + s^2 = 1 in the exact regime of the four sums '
     '(ExactAdd); not proved: that numpy.cos / numpy.sin deliver such a pair (floats: Spec oracle at 1e-9) and the case '
     'where a partial sum is pruned by the 1e-8 tolerance',
-    'freeze_orbitals_sound on Fock space (sum over terms, several frozen orbitals, occupied-orbital sign): proved is the '
-    'scan of a single term (deleted operators, swap count = true transpositions - n_ops, occupancy parity, hence correct '
-    'sign on surviving terms); the full statement is checked by the exact embedded-matrix-element oracle',
+    'freeze_orbitals_sound (whole operators, several distinct frozen orbitals, prune=False) is proved at the live '
+    'tolerance against Spec.applyOp .fermion under the per-run exact-regime flag (every `tmp_operator +=` of every pass '
+    'exact; counted as exact-regime(freeze):True/False); not proved: prune=True (the order-preserving relabelling of '
+    'prune_unused_indices preserves the matrix elements: exact embedded-matrix-element oracle only), repeated frozen '
+    'indices, and runs whose flag is False',
     'scbk_sector: no theorem besides remove_indices_order_preserving; end-to-end sector spectra checked numerically '
     '(n = 4; 6 in thorough), edit_hamiltonian_for_spin / remove_indices by correspondence',
 ]
@@ -460,6 +461,9 @@ def stream_taper(ctx):
         if not same_result(r, m, ('op', 'fixed')):
             st.disagree(f, case, r, m)
         stale = 'ok' in m and m['ok']['stale']
+        if 'ok' in m and not ml:
+            # hypothesis of reduce_terms_agrees_on_codespace, evaluated by the driver on this input
+            st.count('exact-regime(%s):%s' % (f, m['ok']['exact']))
         if 'error' in r:
             if bad is None and not man:
                 st.violate('%s rejects an admissible stabilizer list' % f, case, r)
@@ -617,8 +621,11 @@ def stream_proj(ctx):
             continue
         st.count('project:' + ('ok' if 'ok' in r else r['error']))
         if ('ok' in r) != ('ok' in m) or ('error' in r and r['error'] != m['error']) or \
-                ('ok' in r and canon_op_json(r['ok']) != canon_op_json(m['ok'])):
+                ('ok' in r and canon_op_json(r['ok']) != canon_op_json(m['ok']['op'])):
             st.disagree('project_onto_sector', case, r, m)
+        if 'ok' in m:
+            # hypothesis of project_onto_sector_sound, evaluated by the driver on this input
+            st.count('exact-regime(project):%s' % m['ok']['exact'])
         try:
             err = of.transforms.projection_error(op, qubits_t, sectors_t)
             if snap_any(op) != op0:
@@ -746,9 +753,11 @@ def stream_freeze(ctx):
             reqs.append({'op': 'c16.freeze', 'A': jA, 'occupied': occ, 'unoccupied': unocc, 'prune': prune})
     ans = iter(ctx.driver.run(reqs))
     for n, op, occ, unocc, jA in items:
-        m0, m1 = next(ans), next(ans)
+        x0, x1 = next(ans), next(ans)
+        m0, m1 = x0['op'], x1['op']
         case = {'f': 'freeze_orbitals', 'A': jA, 'occupied': occ, 'unoccupied': unocc}
         st.case(case)
+        st.count('exact-regime(freeze):%s' % x0['exact'])
         st.count('occ=%d,unocc=%d' % (len(occ), len(unocc)))
         before = canon_op_json(enc_op('fermion', op.terms))
         try:
@@ -1108,7 +1117,7 @@ def stream_bands(ctx):
                 r = of.transforms.project_onto_sector(Q, list(qubits), list(sectors))
                 rb = of.transforms.project_onto_sector(relabel_q(of, Q, sh), [q + OFF for q in qubits], list(sectors))
                 jr, jb = enc_op('qubit', r.terms), enc_op('qubit', rb.terms)
-                if 'ok' not in m or canon_op_json(jr) != canon_op_json(m['ok']):
+                if 'ok' not in m or canon_op_json(jr) != canon_op_json(m['ok']['op']):
                     st.disagree('project_onto_sector (sizes)', case, jr, m)
                 if canon_op_json(jb) != jrelabel(jr, sh):
                     st.violate('shifting all qubit indices by %d does not commute with project_onto_sector' % OFF, case,
@@ -1119,8 +1128,8 @@ def stream_bands(ctx):
                 rb = of.transforms.freeze_orbitals(relabel_f(of, A, sh), [q + OFF for q in occ], [q + OFF for q in unocc],
                                                    prune=False)
                 jr, jb = enc_op('fermion', r.terms), enc_op('fermion', rb.terms)
-                if canon_op_json(jr) != canon_op_json(m):
-                    st.disagree('freeze_orbitals (sizes)', case, jr, m)
+                if canon_op_json(jr) != canon_op_json(m['op']):
+                    st.disagree('freeze_orbitals (sizes)', case, jr, m['op'])
                 if canon_op_json(jb) != jrelabel(jr, sh):
                     st.violate('shifting all mode indices by %d does not commute with freeze_orbitals' % OFF, case,
                                {'shifted_result': jb, 'result': jr})
